@@ -26,7 +26,7 @@ def run(run):
     with open(p, "w") as f:
         f.write("SPECIFICATION GenSpec\nCHECK_DEADLOCK FALSE\nCONSTANTS\n  RingLens = {3}\n  Two = FALSE\n" + "".join("  %s = %d\n" % kv for kv in k.items()))
     cp = os.path.join(out, "cases.ndjson")
-    ncases = run.gen("gen", SPEC, "WithinGen", p, cp, workers=1, timeout=3000)
+    ncases = run.gen("gen", SPEC, "WithinGen", p, cp, workers=1, timeout=3000, require=["agg", "poly"])
     tr1 = os.path.join(out, "trace_replay.ndjson")
     run.drive(["c02", "replay", cp, tr1], timeout=3000)
     nrand = 600 if quick else 20000
